@@ -406,32 +406,44 @@ seed("c07-multiply-guard-rows", "C07", SP, """        if self.cols != x.size() {
             panic!( "Sparse matrix multiply""", "scatter")
 
 # ---------------------------------------------------------------- C08 / C09
-seed("c08-cg-ok-untested", "C08", SP, """            resid = r.norm_2() / normb;
-            if resid <= tol && self.true_residual( b, x, normb ) <= tol { return Ok( i ); }
-            rho_1 = rho;""", """            resid = r.norm_2() / normb;
-            if ( resid <= tol && self.true_residual( b, x, normb ) <= tol ) || i == max_iter { return Ok( i ); }
+seed("c08-cg-ok-untested", "C08", SP, """            if resid <= tol {
+                if self.true_residual( b, x, normb ) <= tol { return Ok( i ); }
+                return self.solve_cg( b, x, max_iter - i, tol ).map( |k| k + i );
+            }
+            rho_1 = rho;""", """            if resid <= tol {
+                if self.true_residual( b, x, normb ) <= tol { return Ok( i ); }
+                return self.solve_cg( b, x, max_iter - i, tol ).map( |k| k + i );
+            }
+            if i == max_iter { return Ok( i ); }
             rho_1 = rho;""", "confirmed-success")
-seed("c08-cg-unconfirmed", "C08", SP, """            resid = r.norm_2() / normb;
-            if resid <= tol && self.true_residual( b, x, normb ) <= tol { return Ok( i ); }
-            rho_1 = rho;""", """            resid = r.norm_2() / normb;
-            if resid <= tol { return Ok( i ); }
+seed("c08-cg-unconfirmed", "C08", SP, """            if resid <= tol {
+                if self.true_residual( b, x, normb ) <= tol { return Ok( i ); }
+                return self.solve_cg( b, x, max_iter - i, tol ).map( |k| k + i );
+            }
+            rho_1 = rho;""", """            if resid <= tol { return Ok( i ); }
             rho_1 = rho;""", "confirmed-success/solve_cg#1", "the original defect (finding 23)")
-seed("c08-qmr-confirm-or", "C08", SP, "            if resid <= tol && self.true_residual( b, x, normb ) <= tol { return Ok( i ); } \n        }",
-     "            if resid <= tol || self.true_residual( b, x, normb ) <= tol { return Ok( i ); } \n        }", "confirmed-success/solve_qmr#1")
+seed("c08-qmr-confirm-or", "C08", SP, """            if resid <= tol {
+                if self.true_residual( b, x, normb ) <= tol { return Ok( i ); }
+                return self.solve_qmr( b, x, max_iter - i, tol ).map( |k| k + i );
+            }""", """            if resid <= tol || self.true_residual( b, x, normb ) <= tol { return Ok( i ); }""", "confirmed-success/solve_qmr#1")
 seed("c08-bicgstab-confirm-before-update", "C08", SP, """            *x += alpha * phat.clone();
             resid = s.norm_2() / normb;
-            if resid <= tol && self.true_residual( b, x, normb ) <= tol { return Ok( i ); }""", """            resid = s.norm_2() / normb;
-            if resid <= tol && self.true_residual( b, x, normb ) <= tol { *x += alpha * phat.clone(); return Ok( i ); }
-            *x += alpha * phat.clone();""", "confirmed-success/solve_bicgstab#1")
-seed("c08-bicg-confirm-wrong-vector", "C08", SP, "            if err <= tol && self.true_residual( b, x, bnrm ) <= tol { return Ok( iter ); }",
-     "            if err <= tol && self.true_residual( b, &p, bnrm ) <= tol { return Ok( iter ); }", "confirmed-success/solve_bicg#1")
-seed("c08-helper-recurrence", "C08", SP, "        ( b.clone() - self.multiply( x ) ).norm_2() / normb\n", "        ( b.clone() + self.multiply( x ) ).norm_2() / normb\n", "confirmed-success")
-seed("n-c08-confirm-let", "C08", SP, """            if resid <= tol && self.true_residual( b, x, normb ) <= tol { return Ok( i ); }
-            rho_1 = rho;""", """            if resid <= tol {
-                let confirmed = ( b.clone() - self.multiply( x ) ).norm_2() / normb;
-                if confirmed <= tol { return Ok( i ); }
+            if resid <= tol {
+                if self.true_residual( b, x, normb ) <= tol { return Ok( i ); }
+                return self.solve_bicgstab( b, x, max_iter - i, tol ).map( |k| k + i );
+            }""", """            resid = s.norm_2() / normb;
+            if resid <= tol {
+                if self.true_residual( b, x, normb ) <= tol { *x += alpha * phat.clone(); return Ok( i ); }
+                *x += alpha * phat.clone();
+                return self.solve_bicgstab( b, x, max_iter - i, tol ).map( |k| k + i );
             }
-            rho_1 = rho;""", "SILENT", "neutral: the confirmation spelled inline in a nested test")
+            *x += alpha * phat.clone();""", "confirmed-success/solve_bicgstab#1")
+seed("c08-bicg-confirm-wrong-vector", "C08", SP, "                if self.true_residual( b, x, bnrm ) <= tol { return Ok( iter ); }", "                if self.true_residual( b, &p, bnrm ) <= tol { return Ok( iter ); }", "confirmed-success/solve_bicg#1")
+seed("c08-helper-recurrence", "C08", SP, "        ( b.clone() - self.multiply( x ) ).norm_2() / normb\n", "        ( b.clone() + self.multiply( x ) ).norm_2() / normb\n", "confirmed-success")
+seed("n-c08-confirm-let", "C08", SP, """                if self.true_residual( b, x, normb ) <= tol { return Ok( i ); }
+                return self.solve_cg(""", """                let confirmed = ( b.clone() - self.multiply( x ) ).norm_2() / normb;
+                if confirmed <= tol { return Ok( i ); }
+                return self.solve_cg(""", "SILENT", "neutral: the confirmation spelled inline and named")
 seed("c08-cg-r-wrong-coef2", "C09", SP, "            r -= q.clone() * alpha;", "            r -= q.clone() * rho;", "residual-tracks-iterate/solve_cg")
 seed("c08-cg-x-hoisted", "C08", SP, """        if resid <= tol { return Ok( 0 ); }
 
@@ -444,16 +456,21 @@ seed("c08-cg-x-hoisted", "C08", SP, """        if resid <= tol { return Ok( 0 );
 seed("c08-bicgstab-halfstep-no-x", "C09", SP, """            s = r.clone() - v.clone() * alpha;
             *x += alpha * phat.clone();
             resid = s.norm_2() / normb;
-            if resid <= tol && self.true_residual( b, x, normb ) <= tol { return Ok( i ); }""", """            s = r.clone() - v.clone() * alpha;
+            if resid <= tol {
+                if self.true_residual( b, x, normb ) <= tol { return Ok( i ); }
+                return self.solve_bicgstab( b, x, max_iter - i, tol ).map( |k| k + i );
+            }""", """            s = r.clone() - v.clone() * alpha;
             resid = s.norm_2() / normb;
-            if resid <= tol && self.true_residual( b, x, normb ) <= tol { return Ok( i ); }
+            if resid <= tol {
+                if self.true_residual( b, x, normb ) <= tol { return Ok( i ); }
+                return self.solve_bicgstab( b, x, max_iter - i, tol ).map( |k| k + i );
+            }
             *x += alpha * phat.clone();""", "tested-vector/solve_bicgstab")
 seed("c08-bicgstab-x-omega-dropped", "C09", SP, "            *x += omega * shat.clone();\n", "", "residual-tracks-iterate/solve_bicgstab")
 seed("c08-qmr-r-plus", "C09", SP, "            r -= s.clone();", "            r += s.clone();", "residual-tracks-iterate/solve_qmr")
 seed("c08-qmr-s-wrong", "C09", SP, "                s = eta * p_tld.clone() + ( theta_1 * theta_1 * gamma * gamma ) * s;", "                s = eta * p_tld.clone() + ( theta_1 * theta * gamma * gamma ) * s;", "residual-tracks-iterate/solve_qmr")
 seed("c08-bicg-loop-le", "C08", SP, "        while iter < max_iter {", "        while iter <= max_iter {", "budget/solve_bicg")
-seed("c08-bicg-test-rr", "C09", SP, "            if itol == 1 { err = r.norm_2() / bnrm; }\n            if itol == 2 { err = z.norm_2() / bnrm; }\n            if err <= tol &&",
-     "            if itol == 1 { err = rr.norm_2() / bnrm; }\n            if itol == 2 { err = z.norm_2() / bnrm; }\n            if err <= tol &&", "tested-vector/solve_bicg")
+seed("c08-bicg-test-rr", "C09", SP, "            if itol == 1 { err = r.norm_2() / bnrm; }\n            if itol == 2 { err = z.norm_2() / bnrm; }\n            if err <= tol {\n                if self.true_residual(", "            if itol == 1 { err = rr.norm_2() / bnrm; }\n            if itol == 2 { err = z.norm_2() / bnrm; }\n            if err <= tol {\n                if self.true_residual(", "tested-vector/solve_bicg")
 seed("c08-cg-initial-residual-sign", "C08", SP, """        let mut normb = b.norm_2();
         let mut r = b.clone() - self.multiply( x );
 
@@ -473,7 +490,9 @@ seed("c08-cg-initial-residual-sign", "C08", SP, """        let mut normb = b.nor
             //z = r;""", "initial-residual/solve_cg")
 seed("c08-qmr-breakdown-ok", "C08", SP, "            if gamma == 0.0 { return Err( resid ); }", "            if gamma == 0.0 { return Ok( i ); }", "confirmed-success/solve_qmr")
 seed("c08-cg-q-from-z", "C09", SP, "            q = self.multiply( &p );", "            q = self.multiply( &z );", "residual-tracks-iterate/solve_cg")
-seed("c08-bicgstab-tol-scaled", "C08", SP, "            if resid < tol && self.true_residual( b, x, normb ) <= tol { return Ok( i ); }", "            if resid < tol * 10.0 && self.true_residual( b, x, normb ) <= tol * 10.0 { return Ok( i ); }", "confirmed-success/solve_bicgstab")
+seed("c08-bicgstab-tol-scaled", "C08", SP, """            if resid < tol {
+                if self.true_residual( b, x, normb ) <= tol { return Ok( i ); }""", """            if resid < tol * 10.0 {
+                if self.true_residual( b, x, normb ) <= tol * 10.0 { return Ok( i ); }""", "confirmed-success/solve_bicgstab")
 seed("c09-cg-zero-norm-dropped", "C09", SP, """        let mut r = b.clone() - self.multiply( x );
 
         if normb == 0.0 { normb = 1.0; }""", """        let mut r = b.clone() - self.multiply( x );
@@ -766,7 +785,7 @@ seed("c19-apply-axes-swapped", "C19", ME2, "                self.vars[ i * self.
 seed("c19-assign-skips-var0", "C19", ME2, "                for v in 0..self.nvars {\n                    self.vars[ i * self.ny + j ][ v ] = element.clone();", "                for v in 1..self.nvars {\n                    self.vars[ i * self.ny + j ][ v ] = element.clone();", "assign-apply/assign")
 
 # ---------------------------------------------------------------- more neutral edits
-seed("n-c08-println-in-loop", "C08", SP, "            resid = r.norm_2() / normb;\n            if resid <= tol && self.true_residual( b, x, normb ) <= tol { return Ok( i ); }\n            rho_1 = rho;", "            resid = r.norm_2() / normb;\n            println!( \"cg iteration {} residual {}\", i, resid );\n            if resid <= tol && self.true_residual( b, x, normb ) <= tol { return Ok( i ); }\n            rho_1 = rho;", "SILENT", "logging")
+seed("n-c08-println-in-loop", "C08", SP, "            resid = r.norm_2() / normb;\n            if resid <= tol {\n                if self.true_residual( b, x, normb ) <= tol { return Ok( i ); }\n                return self.solve_cg(", "            resid = r.norm_2() / normb;\n            println!( \"cg iteration {} residual {}\", i, resid );\n            if resid <= tol {\n                if self.true_residual( b, x, normb ) <= tol { return Ok( i ); }\n                return self.solve_cg(", "SILENT", "logging")
 seed("n-c20-panic-message", "C20", ARI, 'panic!( "Matrix dimensions do not agree (*)." );', 'panic!( "Matrix product: inner dimensions differ ({} vs {}).", self.cols, mul.rows );', "SILENT", "message text")
 seed("n-c03-extra-guard", "C03", ARI, '        if self.cols != mul.rows { panic!( "Matrix dimensions do not agree (*)." ); }', '        if self.cols != mul.rows { panic!( "Matrix dimensions do not agree (*)." ); }\n        if self.rows == usize::MAX { panic!( "too large" ); }', "SILENT", "an additional defensive guard")
 seed("n-c15-new-helper-fn", "C15", VFN, "    /// Return the sum of all the elements in the vector\n    #[inline]\n    pub fn sum(&self) -> T {", "    /// Return true if the vector has no elements\n    #[inline]\n    pub fn is_empty(&self) -> bool {\n        self.size() == 0\n    }\n\n    /// Return the sum of all the elements in the vector\n    #[inline]\n    pub fn sum(&self) -> T {", "SILENT", "an added unrelated method")
@@ -830,11 +849,22 @@ seed("c09-cg-indefinite-divisor", "C09", SP, "            alpha = rho / p.dot( &
 seed("c09-bicgstab-new-indefinite", "C09", SP, "            omega = t.dot( &s ) / t.dot( &t );", "            omega = t.dot( &s ) / t.dot( &shat );", "breakdown-free/solve_bicgstab/inner-product#4")
 seed("n-c09-cg-dot-commuted", "C09", SP, "            alpha = rho / p.dot( &q );", "            alpha = rho / q.dot( &p );", "SILENT", "neutral: the inner product is symmetric")
 seed("n-c09-bicgstab-dots-named", "C09", SP, "            omega = t.dot( &s ) / t.dot( &t );", "            let ts = t.dot( &s );\n            let tt = t.dot( &t );\n            omega = ts / tt;", "SILENT", "neutral: naming the two inner products")
-seed("c09-cg-stale-rho", "C09", SP, """            if resid <= tol && self.true_residual( b, x, normb ) <= tol { return Ok( i ); }
-            rho_1 = rho;
-        }""", """            if resid <= tol && self.true_residual( b, x, normb ) <= tol { return Ok( i ); }
-            if i == 1 { rho_1 = rho; }
-        }""", "carried/solve_cg")
+seed("c09-cg-stale-rho", "C09", SP, """                return self.solve_cg( b, x, max_iter - i, tol ).map( |k| k + i );
+            }
+            rho_1 = rho;""", """                return self.solve_cg( b, x, max_iter - i, tol ).map( |k| k + i );
+            }
+            if i == 1 { rho_1 = rho; }""", "carried/solve_cg")
 seed("c09-bicgstab-omega-one-arm", "C09", SP, "            omega = t.dot( &s ) / t.dot( &t );", "            if i > 1 { omega = t.dot( &s ) / t.dot( &t ); }", "carried/solve_bicgstab")
 seed("n-c09-cg-rho-early", "C09", SP, """            alpha = rho / p.dot( &q );""", """            alpha = rho / p.dot( &q );
             rho_1 = rho;""", "SILENT", "neutral: the carried scalar refreshed earlier in the iteration as well (it is not read again before the end)")
+
+# ---------------------------------------------------------------- C08/C09 restart (finding 25)
+seed("c09-cg-continue-unconfirmed", "C09", SP, """            if resid <= tol {
+                if self.true_residual( b, x, normb ) <= tol { return Ok( i ); }
+                return self.solve_cg( b, x, max_iter - i, tol ).map( |k| k + i );
+            }
+            rho_1 = rho;""", """            if resid <= tol && self.true_residual( b, x, normb ) <= tol { return Ok( i ); }
+            rho_1 = rho;""", "recurrence-not-continued/solve_cg#1", "the original defect (finding 25)")
+seed("c08-cg-restart-full-budget", "C08", SP, "                return self.solve_cg( b, x, max_iter - i, tol ).map( |k| k + i );", "                return self.solve_cg( b, x, max_iter, tol ).map( |k| k + i );", "restart/solve_cg#1")
+seed("c08-qmr-restart-count-dropped", "C08", SP, "                return self.solve_qmr( b, x, max_iter - i, tol ).map( |k| k + i );", "                return self.solve_qmr( b, x, max_iter - i, tol );", "restart/solve_qmr#1")
+seed("c09-bicg-err-instead-of-restart", "C09", SP, "                return self.solve_bicg( b, x, max_iter - iter, tol, itol ).map( |k| k + iter );", "                return Err( err );", "unconfirmed-restarts/solve_bicg#1")
